@@ -6,7 +6,6 @@ verus! {
 pub trait TS {
     spec fn spec_ident() -> Seq<char>;
     spec fn spec_output_path() -> Option<std::path::PathBuf>;
-    spec fn spec_docs() -> Option<Seq<char>>;
     spec fn spec_decl() -> Seq<char>;
     fn ident() -> (r: String)
         ensures r@ == Self::spec_ident();
@@ -14,8 +13,8 @@ pub trait TS {
         ensures r == Self::spec_output_path();
     fn decl() -> (r: String)
         ensures r@ == Self::spec_decl();
-    fn docs() -> (r: Option<&'static str>)
-        ensures (r is Some) == (Self::spec_docs() is Some), r is Some ==> r->0@ == Self::spec_docs()->0;
+    type WithoutGenerics: ?Sized;
+    const DOCS: Option<&'static str>;
 }
 
 } // verus!
